@@ -388,6 +388,26 @@ theorem oneshot_eq_stream (id : FilterId) (hid : id = .x86 ∨ id = .arm64 ∨ i
     refine ⟨⟨.riscv, enc, Next.passthrough, false, off, 16, 0, 0, 0, [], X86State.init⟩, _, by simp [Coder.init, FilterId.alignment, FilterId.unfilteredMax, hal'], rfl, ?_⟩
     simp [simpleCode, simpleCodeMain, copyOrCode, callFilter, filterCode, hmin, hne, hcap0, hoff, LZMA_STREAM_END]
 
+/-! ## Handle reuse: initialisation does not depend on what the coder object was used for before -/
+
+/-- `lzma_delta_coder_init` on a used coder (next Block, re-initialised `lzma_stream`, next file) leaves nothing of the previous data:
+    the filter output is a function of the new distance and the new input only. -/
+theorem delta_init_independent_of_previous (prev : Delta.State) (d : Nat) (x : List UInt8) :
+    prev.reinit d = Delta.State.init d
+    ∧ Delta.encode (prev.reinit d) x = Delta.encode (Delta.State.init d) x
+    ∧ Delta.decode (prev.reinit d) x = Delta.decode (Delta.State.init d) x :=
+  ⟨rfl, rfl, rfl⟩
+
+open XzVerif.Simple in
+/-- Same for `lzma_simple_coder_init` (+ the x86 init): a reused coder starts at `now_pos = start_offset`, `prev_mask = 0`,
+    `prev_pos = -5`, an empty buffer and no end flag, exactly like a new one. -/
+theorem simple_init_independent_of_previous (prev : Coder) (h : prev.allocated = 2 * prev.id.unfilteredMax) (enc : Bool) (next : Next)
+    (off : BitVec 32) : prev.reinit enc next off = Coder.init prev.id enc next off := by
+  unfold Coder.reinit Coder.init
+  split
+  · rfl
+  · rw [h]
+
 /-! ## Bridges to what the code under test does today (lean/XzVerif/Gen/C15.lean is regenerated on every check by running it) -/
 
 open XzVerif.Simple in
